@@ -1,7 +1,7 @@
 (* C04 — exported theorems only: each is closed by [exact] and followed by Print Assumptions. *)
 From Coq Require Import List ZArith Bool.
 From Verif Require Import Lib.Interleave.
-From Verif Require Import C04.Model C04.Spec C04.Proofs C04.Proofs_state C04.Proofs_decl C04.Proofs_main C04.Proofs_more.
+From Verif Require Import C04.Model C04.Spec C04.Proofs C04.Proofs_state C04.Proofs_decl C04.Proofs_rec C04.Proofs_main C04.Proofs_more.
 Import ListNotations.
 Open Scope Z_scope.
 
@@ -29,6 +29,14 @@ Theorem c04_declarations_follow_history : forall h ops,
   proj (exec h init_state ops) = fold_left (decl_step h) ops [].
 Proof. exact declarations_follow_history. Qed.
 Print Assumptions c04_declarations_follow_history.
+
+(* which gang-group record every gang is wired to, which records the cache's map holds and which of
+   them are once-satisfied after any history are the ones the tracker [rec_step] recomputes from the
+   operations (clause 9; the tracker is fed the model's own previous observation and declarations) *)
+Theorem c04_records_follow_history : forall h ops,
+  rs_of (exec h init_state ops) = rec_run h init_state rstate0 ops.
+Proof. exact records_follow_history. Qed.
+Print Assumptions c04_records_follow_history.
 
 (* membership partition: after every prefix of every protocol-conformant history (no Permit for a
    pod the cache holds as bound, no Permit / PostBind for a pod that is not a child of its gang at
@@ -151,3 +159,14 @@ Example c04_strict_reject_example :
   map (fun o => (o_res (fst o), o_rejected (fst o))) (run ex3_hdr ops)
   = [(0, []); (0, []); (0, []); (res_wait, []); (res_wait, []); (0, [0])].
 Proof. exact strict_reject_example. Qed.
+
+(* non-vacuity of clause 9: a satisfied gang whose group was re-declared is torn down and submitted
+   again under the same name; the new gang is unsatisfied and its first member waits *)
+Example c04_resubmitted_group_unsatisfied_example :
+  let l := run ex4_hdr ex4_ops in
+  map (fun o => o_res (fst o)) (firstn 3 (skipn 4 l)) = [res_wait; res_wait; res_success]
+  /\ option_map v_sat (vget (snd (nth 10 l (out0, view init_state))) 1) = Some true
+  /\ sv_recs (snd (nth 14 l (out0, view init_state))) = [([1; 2], false)]
+  /\ option_map (fun o => (o_res (fst o), option_map v_sat (vget (snd o) 1), sv_recs (snd o))) (nth_error l 17)
+     = Some (res_wait, Some false, [([1], false); ([1; 2], false)]).
+Proof. exact resubmitted_group_unsatisfied. Qed.
